@@ -36,11 +36,11 @@ func (c15) Describe() CheckInfo {
 		},
 		RealCode:       []string{"gopatch main()/mainCmd.Run, findFiles/findGoFiles, internal/*"},
 		Stubs:          []string{"package os (simulated filesystem incl. symlinks, fifo, shuffled readdir)", "path/filepath Walk re-hosted on the simulated os", "io/ioutil"},
-		RequiredProbes: []string{"excluded-dir-nested", "symlink-to-dir", "symlink-to-file", "dir-named-like-go-file", "overlapping-args", "duplicate-args", "explicit-file-in-excluded-dir", "dotdot-respelling", "absolute-arg", "non-go-file", "absolute-noncanonical-arg", "readdir-shuffled", "permuted-rerun", "dot-named-go-file", "hard-link", "non-directory-with-excluded-name", "symlink-argument", "unparseable-file-in-requested-set", "excluded-dir-named-like-go-file", "argument-through-symlinked-directory", "name-with-pattern-characters", "resolved-path-beyond-path-max"},
+		RequiredProbes: []string{"excluded-dir-nested", "symlink-to-dir", "symlink-to-file", "dir-named-like-go-file", "overlapping-args", "duplicate-args", "explicit-file-in-excluded-dir", "dotdot-respelling", "absolute-arg", "non-go-file", "absolute-noncanonical-arg", "readdir-shuffled", "permuted-rerun", "dot-named-go-file", "hard-link", "non-directory-with-excluded-name", "symlink-argument", "unparseable-file-in-requested-set", "excluded-dir-named-like-go-file", "argument-through-symlinked-directory", "name-with-pattern-characters", "resolved-path-beyond-path-max", "many-unparseable-files", "file-named-like-sibling-directory"},
 	}
 }
 
-var c15DirNames = []string{"a", "b", "pkg", "internal", "cmd", "vendor", "testdata", ".git", ".x", "_gen", "_", "vendor2", "testdata_old", "x.go", "sub", "v.endor", "Vendor", "_old.go", ".bak.go", "vendor.go", "testdata.go", ".go", "api[v2]", "apiv", "api2", "w*ld", "wild"}
+var c15DirNames = []string{"a", "b", "pkg", "internal", "cmd", "vendor", "testdata", ".git", ".x", "_gen", "_", "vendor2", "testdata_old", "x.go", "sub", "v.endor", "Vendor", "_old.go", ".bak.go", "vendor.go", "testdata.go", ".go", "api[v2]", "apiv", "api2", "w*ld", "wild", "pkg-v2", "a.b", "a-b"}
 
 func c15Excluded(name string) bool {
 	return name == "vendor" || name == "testdata" || strings.HasPrefix(name, ".") || strings.HasPrefix(name, "_")
@@ -105,6 +105,22 @@ func (c15) Gen(env *Env, seed uint64, tier string, i int) *Case {
 				name = fmt.Sprintf("_u%d.go", id)
 			case 2:
 				name = fmt.Sprintf("f%d_test.go", id)
+			case 4:
+				// a file named like a sibling directory plus ".go": "pkg.go" next to
+				// "pkg/" - their order as paths is not their order in a directory walk
+				if d2 := dirs[r.Intn(len(dirs))]; d2 != ProjDir && !strings.HasSuffix(d2, ".go") {
+					taken := false
+					for _, n := range c.Spec.Nodes {
+						if n.Path == d2+".go" || strings.HasPrefix(n.Path, d2+".go/") {
+							taken = true
+						}
+					}
+					if !taken {
+						d = path.Dir(d2)
+						name = path.Base(d2) + ".go"
+						c.Extra["dir_stem_file"] = "1"
+					}
+				}
 			case 3:
 				// a name that is also a shell pattern, next to a file the pattern matches
 				g := [][2]string{{"t%d[x].go", "t%dx.go"}, {"q%d?.go", "q%da.go"}, {"s%d*r.go", "s%dtar.go"}, {"[a-z]%d.go", "b%d.go"}}[r.Intn(4)]
@@ -123,7 +139,6 @@ func (c15) Gen(env *Env, seed uint64, tier string, i int) *Case {
 				c.SetNode(world.NodeSpec{Path: p, Kind: "file", Data: data})
 				broken[p] = true
 				gofiles = append(gofiles, p)
-				c.Extra["broken"] = p
 				continue
 			}
 			if insideExcluded(p) && r.Chance(1, 4) {
@@ -199,6 +214,31 @@ func (c15) Gen(env *Env, seed uint64, tier string, i int) *Case {
 			c.SetNode(world.NodeSpec{Path: p, Kind: "file", Data: c15GoFile(id)})
 			gofiles = append(gofiles, p)
 		}
+	}
+	if r.Chance(1, 40) {
+		// a dozen requested files that do not parse, and good ones after them
+		for k := 0; k < 12; k++ {
+			p := fmt.Sprintf("%s/e%02d_broken.go", ProjDir, k)
+			c.SetNode(world.NodeSpec{Path: p, Kind: "file", Data: []byte("package broken\n\nfunc {{{ vfCnt1\n")})
+			broken[p] = true
+			gofiles = append(gofiles, p)
+		}
+		for k := 0; k < 2; k++ {
+			id++
+			p := fmt.Sprintf("%s/zz_after%d.go", ProjDir, k)
+			c.SetNode(world.NodeSpec{Path: p, Kind: "file", Data: c15GoFile(id)})
+			gofiles = append(gofiles, p)
+		}
+		c.Targets = append(c.Targets, ProjDir)
+		c.Extra["many_broken"] = "1"
+	}
+	if len(broken) > 0 {
+		var bl []string
+		for p := range broken {
+			bl = append(bl, p)
+		}
+		sort.Strings(bl)
+		c.Extra["broken"] = strings.Join(bl, "\n")
 	}
 	if len(gofiles) == 0 {
 		p := ProjDir + "/f0.go"
@@ -497,6 +537,9 @@ func (c15) Eval(env *Env, c *Case) []Violation {
 	if c.Extra["glob_name"] == "1" {
 		env.Probe("name-with-pattern-characters")
 	}
+	if c.Extra["dir_stem_file"] == "1" {
+		env.Probe("file-named-like-sibling-directory")
+	}
 	if c.Extra["beyond_path_max"] == "1" {
 		env.Probe("resolved-path-beyond-path-max")
 	}
@@ -582,13 +625,23 @@ func (c15) Eval(env *Env, c *Case) []Violation {
 	}
 	var wantPrint bytes.Buffer
 	wantFinal := map[string][]byte{}
-	brokenP := c.Extra["broken"]
-	brokenExpected := brokenP != "" && expSet[brokenP]
+	brokenSet := map[string]bool{}
+	brokenP := ""
+	for _, p := range strings.Split(c.Extra["broken"], "\n") {
+		if p != "" && expSet[p] {
+			brokenSet[p] = true
+			brokenP = p
+		}
+	}
+	brokenExpected := len(brokenSet) > 0
 	if brokenExpected {
 		env.Probe("unparseable-file-in-requested-set")
 	}
+	if len(brokenSet) > 10 {
+		env.Probe("many-unparseable-files")
+	}
 	for _, p := range expected {
-		if p == brokenP {
+		if brokenSet[p] {
 			// fails to parse: stays as it is, prints nothing
 			wantFinal[p] = origData[p]
 			continue
@@ -627,7 +680,7 @@ func (c15) Eval(env *Env, c *Case) []Violation {
 			if expSet[s.Path] {
 				switch {
 				case bytes.Equal(g.Data, wantFinal[s.Path]):
-				case s.Path == brokenP:
+				case brokenSet[s.Path]:
 					add("touched-other", "unparseable-file-modified/"+tag, fmt.Sprintf("%s does not parse but was modified (args %v)", s.Path, r.W.Args))
 				case bytes.Equal(g.Data, s.Data):
 					add("not-processed", tag, fmt.Sprintf("%s should have been processed but is unchanged (args %v, expected set %v)", s.Path, r.W.Args, expected))
@@ -679,7 +732,7 @@ func (c15) Eval(env *Env, c *Case) []Violation {
 			rest := out
 			left := map[string]bool{}
 			for _, p := range expected {
-				if len(wantFinal[p]) > 0 && p != brokenP {
+				if len(wantFinal[p]) > 0 && !brokenSet[p] {
 					left[p] = true
 				}
 			}
